@@ -25,20 +25,10 @@ def acl_undeclared_cap(rep):
     return any(c.lower() not in declared for u in d["units"] for c in u.get("memoryAccess", []))
 
 
-def empty_unit_name(rep):
-    """a unit named '' that is the first surviving input port -> EmptyProcError (finding O3)"""
-    d = _desc(rep)
-    if not d or rep.get("component") != "loader" or _outcome(rep) != "EmptyProcError":
-        return False
-    return any(u.get("name") == "" for u in d["units"])
-
-
 PINNED = {
     "acl_undeclared_cap": {"desc": {"units": [{"name": "core", "width": 1, "capabilities": ["ALU"], "readLock": True,
                                                "writeLock": True, "memoryAccess": ["MEM"]}], "dataPath": []},
                            "kind": "pinned"},
-    "empty_unit_name": {"desc": {"units": [{"name": "", "width": 1, "capabilities": ["ALU"], "readLock": True,
-                                            "writeLock": True}], "dataPath": []}, "kind": "pinned"},
 }
 
 
@@ -54,7 +44,3 @@ def _demo(name):
 
 def acl_undeclared_cap_demo():
     return _demo("acl_undeclared_cap")
-
-
-def empty_unit_name_demo():
-    return _demo("empty_unit_name")
